@@ -52,6 +52,7 @@ package acl
 // "command|subcommand", built with fmt.Sprintf (not modelled).
 //@ func (*ACL).AuthorizeConnection props C06
 //@   requires inv(acl, conns)
+//@   requires {C12} nonempty: len(cmd) >= 1
 //@   ensures {C06} nostate: forall c *net.Conn :: (has(acl.Connections, c) <==> old(has(acl.Connections, c))) && acl.Connections[c] == old(acl.Connections[c])
 //@   ensures {C06} open: !acl.Config.RequirePass && result != nil ==> true
 //@   ensures {C06} authenticated: result == nil && acl.Config.RequirePass && subCommand == zeroval("internal.SubCommand") && !exempt(command.Command) ==> old(acl.Connections[conn].Authenticated)
@@ -79,3 +80,24 @@ package acl
 //@   requires len(password) > 0
 //@   ensures result == (at(password, 0) == 35 ? "SHA256" : "plaintext")
 //@   modifies nothing
+
+// Sub-command handlers (registered under SubCommands in Commands()): sugardb.handleCommand selects one only for a command of
+// at least two words (its subcmd-arity assertion).
+//@ func handleCat props C12
+//@   requires subcommand: len(params.Command) >= 2
+//@ func handleDelUser props C12
+//@   requires subcommand: len(params.Command) >= 2
+//@ func handleGetUser props C12
+//@   requires subcommand: len(params.Command) >= 2
+//@ func handleList props C12
+//@   requires subcommand: len(params.Command) >= 2
+//@ func handleLoad props C12
+//@   requires subcommand: len(params.Command) >= 2
+//@ func handleSave props C12
+//@   requires subcommand: len(params.Command) >= 2
+//@ func handleSetUser props C12
+//@   requires subcommand: len(params.Command) >= 2
+//@ func handleUsers props C12
+//@   requires subcommand: len(params.Command) >= 2
+//@ func handleWhoAmI props C12
+//@   requires subcommand: len(params.Command) >= 2
